@@ -70,7 +70,9 @@ class UnitarySerializedEmulator(IndependentSubcircuitsBackend):
                 if param.classical:
                     argv.append(val)
                 else:
-                    qind.append(val.alias_index)
+                    # Follow map aliases back to the fundamental register
+                    _reg, qubit_index = val.resolve_qubit()
+                    qind.append(qubit_index)
 
             # This is the dense submatrix
             dsub = gatedef.ideal_unitary(*argv)
